@@ -462,3 +462,8 @@ def replay_grid(model, name):
 
 
 REPLAY = {'C16/Mininec.compute_near_field[grid slice]/': replay_grid}
+
+
+# the points of a request are those of THIS request: neither compute_near_field nor compute_far_field reads what an earlier
+# request left in its result attributes, and they write nothing else (assigns clauses stated with C14)
+EXTRA_UNITS = [('contracts.C14', 'U_ASSIGNS')]
